@@ -7,6 +7,7 @@ import (
 	"math/rand"
 	"os"
 	"strings"
+	"sync"
 	"time"
 
 	"github.com/meshplus/bitxhub-kit/types"
@@ -86,10 +87,18 @@ type poolRun struct {
 	// C19, a few flagged cases: one op that needs real elapsed time (see "supersede-evict")
 	timing, timingDone bool
 	protect            string // hash of a tx the eviction just observed must not have taken
+	// C19, one case in eight: reader goroutines call GetPendingNonceByAccount all the time (poolconc.go)
+	concurrent bool
+	ledMu      sync.RWMutex
+	nAcct      int
+	conc       *concRec
 }
 
-func newPoolRun(prop string, cfg poolCfg) *poolRun {
-	pr := &poolRun{prop: prop, cfg: cfg, ledger: map[string]uint64{}, stats: map[string]int64{}, shape: map[string]bool{}, seq: cfg.StartSeq}
+func newPoolRun(prop string, cfg poolCfg) *poolRun { return newPoolRunConc(prop, cfg, 0) }
+
+// newPoolRunConc: nAcct > 0 turns the concurrent readers on (C19 only).
+func newPoolRunConc(prop string, cfg poolCfg, nAcct int) *poolRun {
+	pr := &poolRun{prop: prop, cfg: cfg, ledger: map[string]uint64{}, stats: map[string]int64{}, shape: map[string]bool{}, seq: cfg.StartSeq, concurrent: nAcct > 0, nAcct: nAcct}
 	for k, v := range cfg.Ledger {
 		var i int
 		fmt.Sscanf(k, "%d", &i)
@@ -106,10 +115,45 @@ func (pr *poolRun) newPool() {
 	led := pr.ledger // live: the pool reads the ledger's nonce whenever it first meets an account
 	pr.pool = mempool.NewMemPool(&mempool.Config{
 		ID: 1, BatchSize: pr.cfg.BatchSize, PoolSize: pr.cfg.PoolSize, TxSliceSize: 3, ChainHeight: pr.seq, Logger: lg, IsTimed: pr.cfg.Timed,
-		GetAccountNonce: func(a *types.Address) uint64 { return led[a.String()] },
+		GetAccountNonce: func(a *types.Address) uint64 { // the ledger is thread-safe in the node: so is this stand-in
+			pr.ledMu.RLock()
+			defer pr.ledMu.RUnlock()
+			return led[a.String()]
+		},
 	})
 	pr.m = model.NewPool(pr.cfg.BatchSize, pr.seq, func(a string) uint64 { return led[a] })
 	pr.batches = nil
+	if pr.concurrent {
+		real := pr.pool
+		if pr.conc == nil {
+			var accts []string
+			for i := 0; i < pr.nAcct; i++ {
+				accts = append(accts, poolAcctAddr(i).String())
+			}
+			pr.conc = newConcRec(accts, real)
+		} else {
+			// a restarted node: from now on the API goroutines talk to the new pool
+			call := pr.conc.begin()
+			pr.conc.cur.Store(&real)
+			pr.conc.wrote(call, "restart")
+		}
+		pr.pool = &recPool{MemPool: real, c: pr.conc}
+	}
+}
+
+func (pr *poolRun) setLedger(a string, n uint64) {
+	var call [2]int64
+	if pr.conc != nil {
+		call = pr.conc.begin()
+	}
+	pr.ledMu.Lock()
+	pr.ledger[a] = n
+	pr.ledMu.Unlock()
+	if pr.conc != nil {
+		// for an account the pool does not know, the pending nonce is the ledger's nonce: the executor's commit is a
+		// write of the history too
+		pr.conc.wrote(call, "ledger")
+	}
 }
 
 func (pr *poolRun) violation(sig, detail string) {
@@ -256,7 +300,7 @@ func (pr *poolRun) apply(op poolOp) {
 		pr.batches = nb
 		pr.m.CommitHashes(op.Hashes)
 		for _, a := range pr.m.Accounts() {
-			pr.ledger[a] = pr.m.Commit(a)
+			pr.setLedger(a, pr.m.Commit(a))
 		}
 		pr.pool.CommitTransactions(&mempool.ChainState{Height: pr.seq, TxHashList: hashes})
 		pr.stats["commits"]++
@@ -289,7 +333,7 @@ func (pr *poolRun) apply(op poolOp) {
 			pr.foreign = append(pr.foreign, k)
 		}
 		for _, a := range pr.m.Accounts() {
-			pr.ledger[a] = pr.m.Commit(a)
+			pr.setLedger(a, pr.m.Commit(a))
 		}
 		pr.pool.CommitTransactions(&mempool.ChainState{Height: pr.seq, TxHashList: hashes})
 		pr.stats["announced_blocks_committed"]++
@@ -313,7 +357,7 @@ func (pr *poolRun) apply(op poolOp) {
 			pr.stats["foreign_blocks_marked_before_commit"]++
 		}
 		for _, a := range pr.m.Accounts() {
-			pr.ledger[a] = pr.m.Commit(a)
+			pr.setLedger(a, pr.m.Commit(a))
 		}
 		pr.pool.CommitTransactions(&mempool.ChainState{Height: pr.seq, TxHashList: hashes})
 		pr.stats["foreign_commits"]++
@@ -610,7 +654,7 @@ func (pr *poolRun) drain() {
 		}
 		pr.m.CommitHashes(hs)
 		for _, a := range pr.m.Accounts() {
-			pr.ledger[a] = pr.m.Commit(a)
+			pr.setLedger(a, pr.m.Commit(a))
 		}
 		pr.pool.CommitTransactions(&mempool.ChainState{Height: pr.seq, TxHashList: hashes})
 	}
@@ -741,7 +785,11 @@ func poolWorkload(prop string, args []string) int {
 		}
 		w.CaseStart(id, map[string]interface{}{"cfg": cfg, "accounts": nAcct})
 		guard(w, "pool", func() {
-			pr := newPoolRun(prop, cfg)
+			concAccts := 0
+			if prop == "C19" && id%8 == 3 {
+				concAccts = nAcct
+			}
+			pr := newPoolRunConc(prop, cfg, concAccts)
 			pr.timing = prop == "C19" && id%40 == 7
 			ts := int64(5000)
 			known := map[string]string{}
@@ -753,6 +801,21 @@ func poolWorkload(prop string, args []string) int {
 				pr.apply(op)
 			}
 			pr.apply(poolOp{Op: "drain"})
+			if pr.conc != nil {
+				verdict, detail, reads, writes := pr.conc.finish()
+				pr.stats["concurrent_cases"]++
+				pr.stats["obs_concurrent_pending_nonce_reads"] += reads
+				pr.stats["obs_driver_calls_in_concurrent_histories"] += writes / int64(nAcct)
+				pr.shape["concurrent-readers"] = true
+				switch verdict {
+				case "illegal":
+					pr.violation("pending-nonce:concurrent-reads-not-linearizable", detail)
+				case "unknown":
+					pr.stats["obs_linearizability_check_timed_out"]++
+				default:
+					pr.stats["linearizable_histories"]++
+				}
+			}
 			for k, v := range pr.stats {
 				w.Count(k, v)
 			}
